@@ -94,6 +94,37 @@ def histOkE (p : Packetizer) (fs : List FrameIn) (expect : List Bytes) (obs : Li
 def histOk (p : Packetizer) (fs : List FrameIn) (obs : List FrameObs) : Bool :=
   histOkE p fs (fs.map (·.frame)) obs
 
+/-- a per-frame check along a history against per-frame expectations of any type -/
+def histEach {α} (P : α → FrameObs → Bool) : List α → List FrameObs → Bool
+  | [], [] => true
+  | a :: as, o :: os => P a o && histEach P as os
+  | _, _ => false
+
+/-! ### H265: `H265Packet` returns no bytes, so reassembly is judged on the accepted payloads with
+    the RFC 7798 specification (`Spec.Rfc7798.depack`) -/
+
+/-- every accepted payload decoded (by the model of `H265Packet`, no DONL) to its RFC 7798
+    description, with consistent size fields; `none` if a payload was refused or does not decode -/
+def h265DecodeAll : List (Res Bytes) → Option (List Spec.Rfc7798.Packet)
+  | [] => some []
+  | .ok p :: rs =>
+    match H265.decode false (some p) with
+    | .ok v => if v.sizesOk then (h265DecodeAll rs).map (v.pkt :: ·) else none
+    | _ => none
+  | _ :: _ => none
+
+/-- one frame: the payloads are RFC 7798 packets of the shapes the RFC allows (`shapeOk`) and
+    reassemble to exactly the frame's units, in order -/
+def h265FrameOk (units : List Bytes) (o : FrameObs) : Bool :=
+  match h265DecodeAll o.outs with
+  | some ds => ds.all (Spec.Rfc7798.shapeOk false) && Spec.Rfc7798.depack none ds == some units
+  | none => false
+
+/-- the whole H265 predicate -/
+def histOkH265 (p : Packetizer) (frames : List H265Frame) (obs : List FrameObs) : Bool :=
+  histTrain p (p.seq.seq + 1) p.ts (frames.map H265Frame.frameIn) obs &&
+  histEach (fun fr o => h265FrameOk (fr.units.map (·.2)) o) frames obs
+
 /-- the whole predicate for codecs reassembled over the history -/
 def histOkWhole (p : Packetizer) (fs : List FrameIn) (expect : Bytes) (obs : List FrameObs) : Bool :=
   histTrain p (p.seq.seq + 1) p.ts fs obs && wholeOk expect obs
@@ -137,6 +168,11 @@ def wfVP9 (st : VP9Pay) (pk : Packetizer) (frames : List VP9Frame) : Bool :=
 /-- AV1: C13's bound (2 bytes for the payloader) and C13's hypotheses on every temporal unit -/
 def wfAV1 (pk : Packetizer) (frames : List AV1Frame) : Bool :=
   cfgOk pk && decide (overhead pk + 2 ≤ pk.mtu.toNat) && frames.all AV1Frame.wf
+
+/-- H265 without DONL: C14's bound (4 bytes for the payloader) and C14's hypotheses on every frame -/
+def wfH265 (cfg : H265.Cfg) (pk : Packetizer) (frames : List H265Frame) : Bool :=
+  !cfg.addDONL && cfgOk pk && decide (overhead pk + 4 ≤ pk.mtu.toNat) &&
+  frames.all (fun fr => Rtp.Pred.C14.frameWF fr.units)
 
 /-- H264: C10's bound (3 bytes for the payloader) and C10's hypotheses on every frame -/
 def wfH264 (pk : Packetizer) (frames : List H264Frame) : Bool :=
